@@ -354,8 +354,9 @@ def c13(tier):
 def directive_packs(v, tier, cfg_tier=None):
     """The files of Directives.tla: packed (250 cases per file) and a sample one case per file."""
     t = cfg_tier or tier
-    cases = tlc_cases(v, "intended/DirectivesT.cfg" if t == "thorough" else "intended/DirectivesQ.cfg",
-                      module="Directives.tla", tag="DIR")
+    cases = tlc_cases(v, "intended/DirectivesQ.cfg", module="Directives.tla", tag="DIR")
+    if t == "thorough":
+        cases += tlc_cases(v, "intended/DirectivesT.cfg", module="Directives.tla", tag="DIR")
     packs = []
     uid = 2000
     for mode in ("structured", "unstructured"):
